@@ -9,7 +9,7 @@ use crate::tasks::*;
 use crate::tff;
 use crate::tt::*;
 use anthem::syntax_tree::fol::sigma_0 as fol;
-use anthem::verif::{FormulaRepresentation, Problem};
+use anthem::verif::{FormulaRepresentation, Problem, Role};
 use rayon::prelude::*;
 use serde_json::{json, Value};
 
@@ -210,19 +210,47 @@ fn denotation(p: &Problem) -> std::collections::HashMap<String, String> {
 
 fn check_c12(run: &Run, it: &Item, p: &Problem) {
     let text = p.to_string();
-    // (1) symbol-order axioms, read from the text
+    // (1) symbol-order axioms, recognised by their shape in the parsed TFF text (not by name):
+    // an axiom p__less__(f__symbolic__(A), f__symbolic__(B)) between two constants
     let den = denotation(p);
     let mut order: Vec<(String, String)> = vec![];
-    for line in text.lines() {
-        if let Some(rest) = line.strip_prefix("tff(symbol_order_") {
-            // tff(symbol_order_i, axiom, p__less__(f__symbolic__(A), f__symbolic__(B))).
-            let parts: Vec<&str> = rest.split("f__symbolic__(").collect();
-            if parts.len() == 3 {
-                let a = parts[1].split(')').next().unwrap_or("").to_string();
-                let b = parts[2].split(')').next().unwrap_or("").to_string();
-                order.push((a, b));
-            } else {
-                run.violation("symbol_order:unreadable".into(), json!({"item": it.desc, "problem": p.name, "line": line}));
+    match tff::parse_file(&text) {
+        Err(_) => {
+            // the problem is not readable as TFF (C09's business, e.g. a leading underscore):
+            // fall back to the line shape `tff(<name>, axiom, p__less__(f__symbolic__(A), f__symbolic__(B))).`
+            for line in text.lines() {
+                if let Some(k) = line.find(", axiom, p__less__(f__symbolic__(") {
+                    let rest = &line[k + ", axiom, p__less__(f__symbolic__(".len()..];
+                    let parts: Vec<&str> = rest.split("f__symbolic__(").collect();
+                    if parts.len() == 2 && line.trim_end().ends_with("))).") {
+                        let a = parts[0].split(')').next().unwrap_or("").to_string();
+                        let b = parts[1].split(')').next().unwrap_or("").to_string();
+                        order.push((a, b));
+                    }
+                }
+            }
+        }
+        Ok(entries) => {
+            for e in &entries {
+                if let tff::Entry::Formula { role, formula, .. } = e {
+                    if role != "axiom" {
+                        continue;
+                    }
+                    if let tff::TForm::Pred(pn, args) = formula {
+                        if pn == "p__less__" && args.len() == 2 {
+                            let c = |t: &tff::TTerm| match t {
+                                tff::TTerm::App(f, a) if f == "f__symbolic__" && a.len() == 1 => match &a[0] {
+                                    tff::TTerm::App(cn, ca) if ca.is_empty() => Some(cn.clone()),
+                                    _ => None,
+                                },
+                                _ => None,
+                            };
+                            if let (Some(a), Some(b)) = (c(&args[0]), c(&args[1])) {
+                                order.push((a, b));
+                            }
+                        }
+                    }
+                }
             }
         }
     }
@@ -266,16 +294,18 @@ fn check_c12(run: &Run, it: &Item, p: &Problem) {
     if !order.is_empty() {
         run.observe(hash_of(&order));
     }
-    // (2) transition axioms of strong equivalence: true in every interpretation with H subset-of T
+    // (2) transition axioms of strong equivalence (recognised by shape): true exactly on H subset-of T
     if it.strong {
+        let mut transitions: Vec<String> = vec![];
         for f in &p.formulas {
-            if f.name.contains("transition_axiom") {
+            if let Some((hn, tn)) = transition_shape(&f.formula) {
+                if f.role != Role::Axiom {
+                    continue;
+                }
                 let preds: Vec<(String, usize)> = f.formula.predicates().into_iter().map(|q| (q.symbol, q.arity)).collect();
-                // shape: forall X (hq(X) -> tq(X)); universe over its two predicates
                 let active = vec![Val::Int(1), Val::sym("a")];
                 let u = Universe::new(&preds, &active);
                 if u.len() > 16 || preds.len() != 2 {
-                    run.violation("transition:shape".into(), json!({"item": it.desc, "problem": p.name, "axiom": f.formula.to_string()}));
                     continue;
                 }
                 let sp = Space::new(u.len());
@@ -283,11 +313,8 @@ fn check_c12(run: &Run, it: &Item, p: &Problem) {
                 let mut g = G::new(&u, slice.clone(), slice.widened(8));
                 let pf = g.ground(&f.formula);
                 let t = sp.cl(&pf);
-                // interpretations arising from H subset-of T: first predicate (h-copy) inside second (t-copy)
                 let n = u.len() / 2;
-                let (hn, tn) = (&preds[0].0, &preds[1].0);
-                if !(hn.starts_with('h') && tn.starts_with('t') && hn[1..] == tn[1..]) || u.len() != 2 * n {
-                    run.violation("transition:shape".into(), json!({"item": it.desc, "problem": p.name, "axiom": f.formula.to_string()}));
+                if preds[0].0 != hn || preds[1].0 != tn {
                     continue;
                 }
                 let mut sub = sp.full.clone();
@@ -297,7 +324,6 @@ fn check_c12(run: &Run, it: &Item, p: &Problem) {
                     and_into(&mut sub, &imp);
                 }
                 run.trans(sp.count(&sub));
-                // true on every H subset-of T, and false on every other interpretation of these atoms
                 let bad = and(&sub, &sp.not(&t));
                 if let Some(idx) = sp.first_set(&bad) {
                     run.violation("transition:false".into(), json!({"item": it.desc, "problem": p.name, "axiom": f.formula.to_string(), "interpretation": describe_cl(&u, idx)}));
@@ -306,17 +332,33 @@ fn check_c12(run: &Run, it: &Item, p: &Problem) {
                 if let Some(idx) = sp.first_set(&loose) {
                     run.violation("transition:too_weak".into(), json!({"item": it.desc, "problem": p.name, "axiom": f.formula.to_string(), "interpretation": describe_cl(&u, idx), "kind": "axiom admits an interpretation with H not inside T"}));
                 }
+                transitions.push(hn.clone());
                 run.observe(hash_of(&f.formula.to_string()));
             }
         }
-        // every predicate of the problem has a transition axiom
-        let axioms: Vec<String> = p.formulas.iter().filter(|f| f.name.contains("transition_axiom")).map(|f| f.formula.to_string()).collect();
+        // every h-copy occurring in the problem has a transition axiom
         for q in p.predicates() {
-            if q.symbol.starts_with('h') && !axioms.iter().any(|a| a.contains(&format!("{}(", q.symbol)) || a.contains(&format!("{} ->", q.symbol))) {
+            if q.symbol.starts_with('h') && !transitions.contains(&q.symbol) {
                 run.violation("transition:missing".into(), json!({"item": it.desc, "problem": p.name, "predicate": format!("{}/{}", q.symbol, q.arity)}));
             }
         }
     }
+}
+
+/// `forall X (hP(X) -> tP(X))` (or the propositional `hP -> tP`): returns the two predicate names
+fn transition_shape(f: &fol::Formula) -> Option<(String, String)> {
+    let inner = match f {
+        fol::Formula::QuantifiedFormula { quantification, formula } if matches!(quantification.quantifier, fol::Quantifier::Forall) => &**formula,
+        x => x,
+    };
+    if let fol::Formula::BinaryFormula { connective: fol::BinaryConnective::Implication, lhs, rhs } = inner {
+        if let (fol::Formula::AtomicFormula(fol::AtomicFormula::Atom(a)), fol::Formula::AtomicFormula(fol::AtomicFormula::Atom(b))) = (&**lhs, &**rhs) {
+            if a.terms == b.terms && a.predicate_symbol.starts_with('h') && b.predicate_symbol.starts_with('t') && a.predicate_symbol[1..] == b.predicate_symbol[1..] && a.terms.iter().all(|t| matches!(t, fol::GeneralTerm::Variable(_))) {
+                return Some((a.predicate_symbol.clone(), b.predicate_symbol.clone()));
+            }
+        }
+    }
+    None
 }
 
 /// the 15+ preamble axioms, evaluated in the standard interpretation over windows
@@ -427,4 +469,46 @@ fn reach(edges: &[(String, String)], a: &String, b: &String) -> bool {
         }
     }
     false
+}
+
+pub fn replay(mode: Mode, v: &Value) -> i32 {
+    let item = &v["replay"]["item"];
+    let run = Run::new(if mode == Mode::C09 { "C09" } else { "C12" }, "quick");
+    let f_of = |name: &str| all_flags().into_iter().find(|f| f.name() == name).unwrap_or_else(|| all_flags()[0].clone());
+    let flags = f_of(item["flags"].as_str().unwrap_or(""));
+    let (problems, strong) = if !item["task"].is_null() {
+        let t = &item["task"];
+        let task = ExtTask {
+            left: t["left"].as_str().unwrap_or("").into(),
+            left_is_spec: t["left_is_spec"].as_bool().unwrap_or(false),
+            right: t["right"].as_str().unwrap_or("").into(),
+            ug: t["user_guide"].as_str().unwrap_or("").into(),
+            po: t["proof_outline"].as_str().unwrap_or("").into(),
+        };
+        (build_external(&task, &flags, fol::Direction::Universal, true), false)
+    } else {
+        let rep = if item["representation"].as_str() == Some("mu") { FormulaRepresentation::Mu } else { FormulaRepresentation::TauStar };
+        (build_strong(item["left"].as_str().unwrap_or(""), item["right"].as_str().unwrap_or(""), &flags, rep, fol::Direction::Universal), true)
+    };
+    let it = Item { desc: item.clone(), key: String::new(), problems, strong };
+    match &it.problems {
+        Err(e) => {
+            println!("replay: task not accepted: {e}");
+            return 2;
+        }
+        Ok(ps) => {
+            for p in ps {
+                match mode {
+                    Mode::C09 => check_c09(&run, &it, p),
+                    Mode::C12 => check_c12(&run, &it, p),
+                }
+            }
+        }
+    }
+    let vs = run.violations.lock().unwrap();
+    let mut keys: Vec<String> = vs.iter().map(|x| x.key.clone()).collect();
+    keys.sort();
+    keys.dedup();
+    println!("replay: violation keys {keys:?}");
+    if keys.is_empty() { 0 } else { 1 }
 }
